@@ -33,4 +33,6 @@ SPECS = {
             "assumptions": COMMON_ASSUME + ["wide integer types are covered at boundary values only; u8/i8 completely"]},
     "C17": {"run": hist_bin("c17"), "replay": hist_replay("c17"), "technique": "exhaustive enumeration of all input sequences up to a length bound on the real aggregators",
             "assumptions": COMMON_ASSUME + ["values from {-1,0,1,2}; percentile p from a 0.5 grid plus rank boundaries"]},
+    "C18": {"run": hist_bin("c18"), "replay": hist_replay("c18"), "technique": "exhaustive DFS over all operation histories up to a depth bound on the real structures, reference closure compared after every operation",
+            "assumptions": COMMON_ASSUME + ["4 (and 5) elements; histories up to depth 6/7 (TrRelUnionFind), 5/6 (UnionFind)"]},
 }
